@@ -27,6 +27,8 @@ ALPHA = {
     "str": ["a", "B", ""],
     "date": [D1, D2],
     "fmt": ["%s", "<%s>", "%r"],          # str % x is printf formatting: defined by Python for every right operand
+    "bytes": [b"a", b"", b"xy"],          # kinds whose + is not commutative although they are not str
+    "tuple": [(1,), (), (2, 3)],
 }
 SCALARS = dict(ALPHA, timedelta=[timedelta(days=1), timedelta(days=-40)])
 OPS = {"add": operator.add, "sub": operator.sub, "mul": operator.mul, "truediv": operator.truediv,
@@ -132,6 +134,8 @@ def unit_binary(unit):
                             agg.violation(V(f"binary.{opn}.{form}", "operand-modified", case))
             # scalar forms: one scalar against the whole vector
             for y in B:
+                if isinstance(y, (tuple, list)):
+                    continue            # a tuple operand is a SEQUENCE of per-element operands, never one scalar
                 for opn, op in OPS.items():
                     want = py_elementwise(op, xs, [y] * n)
                     rwant = py_elementwise(op, [y] * n, xs)
@@ -140,7 +144,7 @@ def unit_binary(unit):
                         if w is None:
                             agg.skipped["python-raises"] += 1
                             continue
-                        if form == "sv" and isinstance(y, str) and opn == "mod":
+                        if form == "sv" and isinstance(y, (str, bytes)) and opn == "mod":
                             agg.skipped["str-%-is-formatting"] += 1
                             continue
                         if ka != kb:
@@ -187,10 +191,12 @@ def unit_binary_long(unit):
             want, rwant = py_elementwise(op, xs, ys), py_elementwise(op, ys, xs)
             swant, rswant = py_elementwise(op, xs, [ys[0]] * n), py_elementwise(op, [ys[0]] * n, xs)
             for form, w in (("vv", want), ("vl", want), ("vt", want), ("lv", rwant), ("vs", swant), ("sv", rswant)):
+                if form in ("vs", "sv") and isinstance(ys[0], (tuple, list)):
+                    continue
                 if w is None:
                     agg.skipped["python-raises"] += 1
                     continue
-                if form == "sv" and isinstance(ys[0], str) and opn == "mod":
+                if form == "sv" and isinstance(ys[0], (str, bytes)) and opn == "mod":
                     continue
                 agg.evals += 1; agg.transitions += 1; agg.states += 1; agg.nontrivial += 1
                 case = {"op": opn, "kinds": [ka, kb], "len": n, "form": form, "family": "long operands"}
